@@ -295,6 +295,12 @@ def execute(prop, tier, seed, P, replay=None, clear=True):
                "checked_components": checked, "bad_steps": len(bad), "deviations_used": {k: v["n"] for k, v in devs.items()},
                "binding_selftest": st_res,
                "checker_cmd": "tlc CoreMC.tla (INVARIANTS InvTypeOK InvOneBinding InvWellFormed InvNoDangling, PROPERTY StepProperty); tlc CoreTrace.tla (monitor)"}
+        if P.get("race"):
+            import races
+            rr = races.execute(prop, tier, sc, topo)
+            viol += rr["viol"]
+            cov["forced_schedules"] = rr["cov"]
+            cov["traces_validated_against_impl"] += rr["cov"]["schedules"]
         log("[%s] %s: %d steps on the code, %d trace lines validated, %d bad, %.1fs" % (prop, tier, nsteps, lines, len(bad), time.time() - t0))
         return {"viol": viol, "cov": cov}
     finally:
